@@ -178,8 +178,13 @@ pub async fn implementation(
                             local_table: Some(&p.local_table),
                         };
                         if let Some(entry) = lookup_table.lookup(&ident.value) {
-                            let tokens = &doc.tokens[p.to_range()];
-                            if let Entry::Procedure(_) = entry {
+                            // early return for default values
+                            if entry.is_default() {
+                                return Ok(None);
+                            }
+                            if let Entry::Procedure(target) = entry {
+                                // the name range of an entry is relative to its own declaration
+                                let tokens = &doc.tokens[target.to_range()];
                                 return Ok(Some(Location {
                                     uri,
                                     range: as_pos_range(&entry.to_text_range(tokens), &doc.text),
